@@ -66,4 +66,6 @@ BudgetEventOk(e) ==
         /\ \A j \in 1..Len(e.coef) : TrueNoiseOk(e, j)
         /\ (e.below_threshold = \A j \in 1..Len(e.coef) : BLt(BMulLimb(e.coef[j].tmag, 2), e.Q))
         /\ (e.below_threshold => e.dec = e.exp))
+  \* BGV: a positive budget means the noise is below the threshold, so decryption returns the expected plaintext
+  /\ (e.scheme = "bgv" /\ e.reported > 0 => e.dec = e.exp)
 ===============================================================================
